@@ -311,18 +311,32 @@ def decode_value(v):
 
 
 def extract_inputs(trace):
-    """All values returned by nondet_vin_<name>() in call order: {name: [hex,...]}"""
+    """All values returned by nondet_vin_<name>() in call order: {name: [hex,...]}.
+    Whole-value assignments start a new instance; element-wise assignments (name.b[i]) patch the latest one
+    (with --arrays-uf-always the whole-struct value is printed as 'unknown')."""
     res = {}
     for st in trace:
         if st.get("stepType") != "assignment" or st.get("hidden"):
             continue
         lhs = st.get("lhs", "")
-        m = re.fullmatch(r"return_value_nondet_vin_(\w+?)(\$\d+)?", lhs)
+        m = re.fullmatch(r"return_value_nondet_vin_(\w+?)(\$\d+)?(\.b\[(\d+)l?\])?", lhs)
         if not m:
             continue
         nm = re.sub(r"__L\d+$", "", m.group(1))
-        res.setdefault(nm, []).append(decode_value(st["value"]).hex())
-    return res
+        if m.group(3) is None:
+            res.setdefault(nm, []).append(bytearray(decode_value(st["value"])))
+        else:
+            idx = int(m.group(4))
+            lst = res.setdefault(nm, [])
+            if not lst:
+                lst.append(bytearray())
+            cur = lst[-1]
+            if len(cur) <= idx:
+                cur.extend(b"\0" * (idx + 1 - len(cur)))
+            b = decode_value(st["value"])
+            if b:
+                cur[idx] = b[0]
+    return {k: [bytes(x).hex() for x in v] for k, v in res.items()}
 
 
 def trace_excerpt(trace, maxn=60):
